@@ -10,6 +10,7 @@ def _jobs(tier):
     jobs = []
     for k in range(1, 17):
         jobs.append(dict(sub="vec", count=geo(k, 6000, 7, 40) * mult, fix=dict(k=k)))
+        jobs.append(dict(sub="vec", count=geo(k, 1500, 6, 10) * mult, fix=dict(k=k), flavour="asan"))
     jobs.append(dict(sub="kernels", count=8000 * mult, fix=dict(logn=(0, 6))))
     jobs.append(dict(sub="kernels", count=1500 * mult, fix=dict(logn=(7, 12))))
     return jobs
